@@ -142,8 +142,10 @@ Act(sem, labs, txt) ==
     [] sem = "text" -> [v |-> Str(Text(txt)), err |-> FALSE, unm |-> FALSE]
     [] sem = "text1" -> [v |-> Str(Text(Tail(txt))), err |-> FALSE, unm |-> FALSE]
     [] sem = "value:sel" ->
+         \* a bare word denotes its dotted spelling; a quoted string that reads as a JSON Pointer keeps the text between the quotes
          LET s == labs["selector"].sel IN
-         [v |-> [k |-> "mv", raw |-> JoinWith(s.path, 1, IF s.ty = "bexpr" THEN "." ELSE "/")], err |-> FALSE, unm |-> FALSE]
+         [v |-> [k |-> "mv", raw |-> IF s.ty = "bexpr" THEN JoinWith(s.path, 1, ".") ELSE Text(SubSeq(txt, 2, Len(txt) - 1))],
+          err |-> FALSE, unm |-> FALSE]
     [] sem = "value:n" -> [v |-> [k |-> "mv", raw |-> labs["n"].s], err |-> FALSE, unm |-> FALSE]
     [] sem = "value:s" -> [v |-> [k |-> "mv", raw |-> labs["s"].s], err |-> FALSE, unm |-> FALSE]
     [] sem = "unquote" ->
